@@ -18,6 +18,7 @@ func checkC06(p *Prog, res *Result, tier string) {
 	res.rule("C06-R1", "one event per successful write with the revision of the stored version (sink validity; event fields copied from the slot; only valid slots)", 7)
 	res.rule("C06-R2", "range-style reads load the committed revision before the scan; header and default read revision derive from that load only", 6)
 	res.rule("C06-R3", "unknown-outcome writes are queued before commit (C09-R1)", 2)
+	res.rule("C06-R5", "listed and streamed data are not overwritten after they were handed over (C05-R9)", 2)
 	res.rule("C06-R4", "the listed state is the complete snapshot: partition borders contiguous and realigned, retried attempts start empty, a failed partition fails the read (C13-R5/R6/R8)", 5)
 
 	// ---- R1 ----
@@ -132,6 +133,9 @@ func checkC06(p *Prog, res *Result, tier string) {
 			res.add("C06-R2", o.Rule+" "+o.Construct, o.Status, o.Pos, o.Detail)
 		}
 	}
+
+	// ---- R5: hand-off aliasing (C05-R9) ----
+	checkHandOffAliasing(p, res, "C06-R5", "pkg/backend", "pkg/backend/scanner")
 
 	// ---- R4: what List returns is the whole snapshot (C13-R5/R6/R8) ----
 	sub13 := newResult("C13")
